@@ -397,7 +397,146 @@ pub fn check_function(f: &mut LocalFunction, origin: &str) -> Result<TreeStats, 
             st.nested_starts += 1;
         }
     }
+    // last, because it rewrites the function
+    if st.instrs < 2000 {
+        check_write_through(f, origin)?;
+    }
     Ok(st)
+}
+
+/// The mutable traversal hands out the operands themselves: a visitor that
+/// overwrites every operand of a kind with one fixed id of that kind must find
+/// exactly that afterwards (read directly from the instruction fields).
+fn check_write_through(f: &mut LocalFunction, origin: &str) -> Result<(), Failure> {
+    let entry = f.entry_block();
+    let mut before = Vec::new();
+    reference(f, entry, &mut before, 1, &mut TreeStats::default());
+    let mut first: std::collections::HashMap<u8, IdEv> = std::collections::HashMap::new();
+    let kind = |e: &IdEv| -> u8 {
+        match e {
+            IdEv::Local(_) => 0,
+            IdEv::Global(_) => 1,
+            IdEv::Func(_) => 2,
+            IdEv::Table(_) => 3,
+            IdEv::Memory(_) => 4,
+            IdEv::Data(_) => 5,
+            IdEv::Elem(_) => 6,
+            IdEv::Type(_) => 7,
+            IdEv::Seq(_) => 8,
+        }
+    };
+    for e in &before {
+        if let Ev::Id(id) = e {
+            first.entry(kind(id)).or_insert_with(|| id.clone());
+        }
+    }
+    // the ids themselves, taken from the function, to write back
+    #[derive(Default)]
+    struct Collect {
+        local: Option<LocalId>,
+        global: Option<GlobalId>,
+        func: Option<FunctionId>,
+        table: Option<TableId>,
+        memory: Option<MemoryId>,
+        data: Option<DataId>,
+        elem: Option<ElementId>,
+        ty: Option<TypeId>,
+        write: bool,
+    }
+    impl VisitorMut for Collect {
+        fn visit_local_id_mut(&mut self, x: &mut LocalId) {
+            match (self.write, self.local) {
+                (true, Some(v)) => *x = v,
+                (false, None) => self.local = Some(*x),
+                _ => {}
+            }
+        }
+        fn visit_global_id_mut(&mut self, x: &mut GlobalId) {
+            match (self.write, self.global) {
+                (true, Some(v)) => *x = v,
+                (false, None) => self.global = Some(*x),
+                _ => {}
+            }
+        }
+        fn visit_function_id_mut(&mut self, x: &mut FunctionId) {
+            match (self.write, self.func) {
+                (true, Some(v)) => *x = v,
+                (false, None) => self.func = Some(*x),
+                _ => {}
+            }
+        }
+        fn visit_table_id_mut(&mut self, x: &mut TableId) {
+            match (self.write, self.table) {
+                (true, Some(v)) => *x = v,
+                (false, None) => self.table = Some(*x),
+                _ => {}
+            }
+        }
+        fn visit_memory_id_mut(&mut self, x: &mut MemoryId) {
+            match (self.write, self.memory) {
+                (true, Some(v)) => *x = v,
+                (false, None) => self.memory = Some(*x),
+                _ => {}
+            }
+        }
+        fn visit_data_id_mut(&mut self, x: &mut DataId) {
+            match (self.write, self.data) {
+                (true, Some(v)) => *x = v,
+                (false, None) => self.data = Some(*x),
+                _ => {}
+            }
+        }
+        fn visit_element_id_mut(&mut self, x: &mut ElementId) {
+            match (self.write, self.elem) {
+                (true, Some(v)) => *x = v,
+                (false, None) => self.elem = Some(*x),
+                _ => {}
+            }
+        }
+        fn visit_type_id_mut(&mut self, x: &mut TypeId) {
+            match (self.write, self.ty) {
+                (true, Some(v)) => *x = v,
+                (false, None) => self.ty = Some(*x),
+                _ => {}
+            }
+        }
+    }
+    let mut col = Collect::default();
+    guard("dfs_pre_order_mut", || dfs_pre_order_mut(&mut col, f, entry))?;
+    col.write = true;
+    guard("dfs_pre_order_mut", || dfs_pre_order_mut(&mut col, f, entry))?;
+    let chosen: Vec<(u8, Option<usize>)> = vec![
+        (0, col.local.map(|x| x.index())),
+        (1, col.global.map(|x| x.index())),
+        (2, col.func.map(|x| x.index())),
+        (3, col.table.map(|x| x.index())),
+        (4, col.memory.map(|x| x.index())),
+        (5, col.data.map(|x| x.index())),
+        (6, col.elem.map(|x| x.index())),
+        (7, col.ty.map(|x| x.index())),
+    ];
+    let mut after = Vec::new();
+    reference(f, entry, &mut after, 1, &mut TreeStats::default());
+    for e in &after {
+        if let Ev::Id(id) = e {
+            let k = kind(id);
+            if k == 8 {
+                continue;
+            }
+            let idx = match id {
+                IdEv::Local(i) | IdEv::Global(i) | IdEv::Func(i) | IdEv::Table(i) | IdEv::Memory(i) | IdEv::Data(i) | IdEv::Elem(i) | IdEv::Type(i) | IdEv::Seq(i) => *i,
+            };
+            if let Some((_, Some(want))) = chosen.iter().find(|(kk, _)| *kk == k) {
+                if idx != *want {
+                    return Err(Failure::new(
+                        "dfs_pre_order_mut:write-through-lost",
+                        format!("a visitor overwrote every operand of this kind with index {}, yet {:?} is still in the function afterwards: the traversal handed out a copy [{}]", want, id, origin),
+                    ));
+                }
+            }
+        }
+    }
+    Ok(())
 }
 
 fn nested_seqs(f: &LocalFunction, seq: InstrSeqId, out: &mut Vec<InstrSeqId>) {
